@@ -225,7 +225,7 @@ struct Rt : FSM::State {
 };
 
 static int g_active() { return g->activeStateId(); }
-static void compare_plan_with_model(int base) {
+template <int base> static void compare_plan_with_model() {      // (template: assertion ids must be compile-time constants)
 #ifdef NOCOMPARE
   return;
 #endif
@@ -255,7 +255,7 @@ static void end_cycle() {
     if (ps_mn > 0 && ps_fail_active) VA(n_pfail == 1, 909);               // plan non-empty and the active state reports failure => planFailed() in this cycle
     if (ps_mn > 0 && ps_head_o == call_before && ps_succ_active && !ps_any_fail) VA(n_fired >= 1, 811);   // first task's origin active with a success report and no failure reports => it fires
   }
-  compare_plan_with_model(820);                                           // unfired tasks stay, in their original order
+  compare_plan_with_model<820>();                                           // unfired tasks stay, in their original order
 #if PREFIX
   if (n_fired) vwitness(9004);
 #ifdef WITNESS_EXTRA
@@ -281,14 +281,14 @@ extern "C" int harness(void) {
   m->enter();
 #endif
   VA(mon_active == 0, 100);
-  compare_plan_with_model(830);
+  compare_plan_with_model<830>();
 #if PREFIX
   // reachable-by-construction arbitrary state: any plan content, any reports, any active state
   for (int k = 0; k < CAP; ++k) if (nondet_u8() & 1) do_append(m->plan());
   for (int i = 0; i < NST; ++i) { unsigned char r = nondet_u8(); if (r & 1) { m->succeed(i); note_succeed(i); } if (r & 2) { m->fail(i); note_fail(i); } }
   { int a = nondet_below(NST); exp_tr = true; m->immediateChangeTo(a); exp_tr = false; }
   passive = false;
-  compare_plan_with_model(830);
+  compare_plan_with_model<830>();
 #endif
   for (int s = 0; s < KSTEPS; ++s) {
     unsigned char op = nondet_u8();
@@ -316,7 +316,7 @@ extern "C" int harness(void) {
       settle_firings();
       VA(n_fired == 0 && n_psucc + n_pfail == 0, 812);                      // nothing fires and no outcome outside update()/react()
       VA(g->activeStateId() == (mon_active < 0 ? INV : mon_active), 120);
-      compare_plan_with_model(840);
+      compare_plan_with_model<840>();
       call_kind = CALL_NONE; }
   }
   vwitness(9001);
